@@ -2,7 +2,8 @@
    Statements + `exact` + Print Assumptions only.  Every disk write of the model is two micro-steps (the file is
    first left without valid JSON, then complete); CrashOp k stops a run after any number k of micro-steps;
    TearCache cuts the cache file short. *)
-From Spok Require Import Base RunCache RunCacheProofs RunCacheInst.
+From Spok Require Import Base Graph GraphProofs RunCache RunCacheProofs RunCacheInst App AppProofs.
+From Coq Require Import Permutation.
 
 Section C10.
 Variable D : Type.
@@ -38,6 +39,17 @@ Print Assumptions C10_invariant.
 Print Assumptions C10_later_runs_sound.
 Print Assumptions C10_damaged_cache.
 
+(* the property as a user meets it: take ANY history mixing file edits, removal of the cache, a cache file cut short, runs killed
+   after any number of micro-steps (CrashOp) and complete `spok [flags] [names]` invocations; whatever a later invocation reports
+   as skipped has exactly the inputs of its last successful completion *)
+Theorem C10_after_any_history : forall pick defs vars fs hs f req s' ob rs r,
+  (forall k l, Permutation (pick k l) l) ->
+  invoke pick defs vars (mixed_history pick defs vars fs hs) f req = (s', ob) -> ob_stdout ob = SDJson rs -> In r rs -> tr_skipped r = true ->
+  exists d F, find_def defs (tr_name r) = Some d /\
+              inputs_of (files DI s') (to_task d) = Some F /\ last_ok DI s' (tr_name r) = Some F.
+Proof. exact skip_sound_after_any_history. Qed.
+Print Assumptions C10_after_any_history.
+
 Definition ta := {| tname := 0; lits := [0]; globs := [] |}.
 Definition all_ok : name -> beh := fun _ => BSucc.
 (* success on content 1; edit to 2; run killed after 3 micro-steps (entry blanked, command running); revert to 1: must run again *)
@@ -47,3 +59,17 @@ Example C10_nonvacuous :
   /\ rr_out DI (run_i false all_ok (apply_op_i s TearCache) [ta]) = RunErr CacheError.
 Proof. split; vm_compute; reflexivity. Qed.
 Print Assumptions C10_nonvacuous.
+
+(* the hypotheses of C10_after_any_history are met by a real history: edit, a complete invocation, a run killed after three micro-steps (its entry blanked, its command started),
+   then an invocation that reports task 0 as skipped (its file is as it was at its last success) *)
+Definition okc10 := {| c_cmd := [101%N]; c_out := []; c_err := []; c_status := 0 |}.
+Definition defs10 := [ {| td_name := 0; td_deps := []; td_lits := [0]; td_globs := []; td_cmds := [okc10] |} ].
+Definition fj := {| f_quiet := false; f_json := true; f_force := false; f_show := false; f_vars := false; f_clean := false; f_debug := false |}.
+Example C10_history_nonvacuous :
+  let hs := [HOp (Edit 0 (Some 1)); HInvoke fj [0]; HOp (Edit 0 (Some 2)); HOp (CrashOp false all_ok [ta] 3); HOp (Edit 0 (Some 1))] in
+  ob_stdout (snd (invoke (fun _ l => l) defs10 [] (mixed_history (fun _ l => l) defs10 [] (fun _ => None) hs) fj [0]))
+  = SDJson [{| tr_name := 0; tr_skipped := false; tr_cmds := [okc10] |}]
+  /\ ob_stdout (snd (invoke (fun _ l => l) defs10 [] (mixed_history (fun _ l => l) defs10 [] (fun _ => None) (firstn 2 hs)) fj [0]))
+  = SDJson [{| tr_name := 0; tr_skipped := true; tr_cmds := [] |}].
+Proof. split; vm_compute; reflexivity. Qed.
+Print Assumptions C10_history_nonvacuous.
